@@ -100,14 +100,16 @@ pub fn run(spec: &ScenarioSpec, ctx: &mut Ctx) -> Result<(), Violation> {
         if is_o7(m.v, &wz.res) {
             ctx.skip("archive leg: versions 3.0-3.6 cannot be written as .slpp (known finding of C02)");
         } else if let Res::Ok(()) = wz.res {
-            match read_slpp(&wz.data, &StreamSpec::default(), false).res {
-                Res::Ok(g2) => {
-                    if g2.hash.as_deref() != Some(want.as_str()) {
-                        return Err(Violation::new(P, "hash-mismatch", "peppi::read", format!("hash after .slpp {:?}, stored {}", g2.hash, want)));
+            for skip in [false, true] {
+                match read_slpp(&wz.data, &StreamSpec::default(), skip).res {
+                    Res::Ok(g2) => {
+                        if g2.hash.as_deref() != Some(want.as_str()) {
+                            return Err(Violation::new(P, "hash-mismatch", if skip { "peppi::read(skip_frames)" } else { "peppi::read" }, format!("hash after .slpp {:?}, stored {}", g2.hash, want)));
+                        }
+                        ctx.check();
                     }
-                    ctx.check();
+                    _ => ctx.skip("archive could not be read back (owned by C02)"),
                 }
-                _ => ctx.skip("archive could not be read back (owned by C02)"),
             }
         } else {
             ctx.skip("archive could not be written (owned by C02)");
